@@ -258,6 +258,82 @@ type tracer struct {
 	e       *Engine
 	visited map[string]bool
 	budget  int
+	// recvTerminal: a field load whose base is (a type assertion of) a
+	// parameter yields the terminal RECV(T).f instead of the module-wide field
+	// summary ("which fields of the object at hand does this depend on")
+	recvTerminal bool
+	// throughNumeric: keep tracing numeric values (slot-agreement queries need
+	// to know which wire member an int came from)
+	throughNumeric bool
+}
+
+// TraceRecv is Trace in receiver-terminal mode (slot-agreement queries).
+func (e *Engine) TraceRecv(v ssa.Value, proj []string) *Set {
+	t := &tracer{e: e, visited: map[string]bool{}, budget: 20000, recvTerminal: true, throughNumeric: true}
+	return t.trace(v, nil, proj)
+}
+
+// TraceWire is TraceField that keeps tracing through numeric conversions.
+func (e *Engine) TraceWire(v ssa.Value, proj []string) *Set {
+	t := &tracer{e: e, visited: map[string]bool{}, budget: 20000, throughNumeric: true}
+	return t.trace(v, nil, proj)
+}
+
+// rootOf follows type assertions, spills and (through the call string)
+// parameters to the value a field base ultimately denotes.
+func (t *tracer) rootOf(base ssa.Value, ctx []frame) (ssa.Value, []frame) {
+	for i := 0; i < 12; i++ {
+		switch b := base.(type) {
+		case *ssa.Extract:
+			if ta, ok := b.Tuple.(*ssa.TypeAssert); ok && b.Index == 0 {
+				base = ta.X
+				continue
+			}
+		case *ssa.TypeAssert:
+			base = b.X
+			continue
+		case *ssa.ChangeInterface:
+			base = b.X
+			continue
+		case *ssa.MakeInterface:
+			base = b.X
+			continue
+		case *ssa.UnOp:
+			if b.Op == token.MUL {
+				u := sx.Unspill(b)
+				if u != ssa.Value(b) {
+					base = u
+					continue
+				}
+			}
+		case *ssa.Parameter:
+			if len(ctx) == 0 {
+				return b, ctx
+			}
+			top := ctx[len(ctx)-1]
+			fn := b.Parent()
+			idx := -1
+			for k, q := range fn.Params {
+				if q == b {
+					idx = k
+				}
+			}
+			cc := top.site.Common()
+			if cc.IsInvoke() {
+				if idx == 0 {
+					base, ctx = cc.Value, ctx[:len(ctx)-1]
+					continue
+				}
+				idx--
+			}
+			if idx >= 0 && idx < len(cc.Args) {
+				base, ctx = cc.Args[idx], ctx[:len(ctx)-1]
+				continue
+			}
+		}
+		break
+	}
+	return base, ctx
 }
 
 // Trace returns the origins of v (a value inside fn).
@@ -337,7 +413,7 @@ func (t *tracer) trace(v ssa.Value, ctx []frame, proj []string) *Set {
 	}
 	t.visited[key] = true
 
-	if len(proj) == 0 && isNumericType(v.Type()) {
+	if len(proj) == 0 && isNumericType(v.Type()) && !t.throughNumeric {
 		out.Add(&Origin{Kind: Numeric, Desc: types.TypeString(v.Type(), nil)})
 		return out
 	}
@@ -467,16 +543,38 @@ func (t *tracer) load(addr ssa.Value, ctx []frame, proj []string) *Set {
 		case *ssa.FieldAddr:
 			// field of an embedded/nested struct: resolve through the outer field,
 			// and (type-based) through every direct store to this inner field
-			out.AddAll(t.load(b, ctx, full))
+			inner := t.load(b, ctx, full)
+			out.AddAll(inner)
+			if t.recvTerminal {
+				onlyRecv := inner.Len() > 0
+				for _, o := range inner.List() {
+					if o.Kind != Recv && o.Kind != Wire {
+						onlyRecv = false
+					}
+				}
+				if onlyRecv {
+					return out
+				}
+			}
 			out.AddAll(e.directFieldStores(f, proj, t))
 			return out
 		}
 		// wire struct reached through a decoder/encoder parameter keeps its slot identity
-		if w := t.wireBase(base, ctx); w != nil {
-			o := *w
-			o.Sub = append(append([]string{}, o.Sub...), full...)
-			out.Add(&o)
-			return out
+		root, rctx := t.rootOf(base, ctx)
+		if rp, ok := root.(*ssa.Parameter); ok && len(rctx) == 0 {
+			if w := e.wireParam(rp); w != nil {
+				o := *w
+				o.Sub = append(append([]string{}, o.Sub...), full...)
+				out.Add(&o)
+				return out
+			}
+			if t.recvTerminal {
+				owner := sx.Deref(a.X.Type())
+				o := &Origin{Kind: Recv, Desc: load.TypeName(owner), Type: owner, Field: f, Fn: rp.Parent()}
+				o.Sub = append([]string{}, full...)
+				out.Add(o)
+				return out
+			}
 		}
 		out.AddAll(e.fieldSummary(f, proj, t))
 	case *ssa.IndexAddr:
@@ -735,6 +833,38 @@ func (t *tracer) contents(root ssa.Value, ctx []frame, proj []string) *Set {
 	out := NewSet()
 	seen := map[ssa.Value]bool{}
 	exact := true // constant element selectors are meaningful until an append/reslice shifts offsets
+	// visitAddr: everything stored at address addr, or at the sub-path rest below it
+	var visitAddr func(addr ssa.Value, rest []string)
+	visitAddr = func(addr ssa.Value, rest []string) {
+		refs := addr.Referrers()
+		if refs == nil {
+			return
+		}
+		for _, r := range *refs {
+			switch x := r.(type) {
+			case *ssa.Store:
+				if x.Addr == addr {
+					out.AddAll(t.trace(x.Val, ctx, rest))
+				}
+			case *ssa.FieldAddr:
+				if x.X == addr {
+					if len(rest) == 0 {
+						visitAddr(x, nil) // whole aggregate wanted: every member
+					} else if sx.FieldOf(x).Name() == rest[0] {
+						visitAddr(x, rest[1:])
+					}
+				}
+			case *ssa.IndexAddr:
+				if x.X == addr {
+					r2 := rest
+					if len(rest) > 0 && isIdx(rest[0]) {
+						r2 = rest[1:]
+					}
+					visitAddr(x, r2)
+				}
+			}
+		}
+	}
 	var visit func(v ssa.Value, isCell bool)
 	visit = func(v ssa.Value, isCell bool) {
 		if seen[v] {
@@ -772,18 +902,14 @@ func (t *tracer) contents(root ssa.Value, ctx []frame, proj []string) *Set {
 							}
 						}
 					}
-					for _, r2 := range *x.Referrers() {
-						if st, ok := r2.(*ssa.Store); ok && st.Addr == x {
-							out.AddAll(t.trace(st.Val, ctx, rest))
-						}
-					}
+					visitAddr(x, rest)
 				}
 			case *ssa.FieldAddr:
-				if x.X == v && len(proj) > 0 && sx.FieldOf(x).Name() == proj[0] {
-					for _, r2 := range *x.Referrers() {
-						if st, ok := r2.(*ssa.Store); ok && st.Addr == x {
-							out.AddAll(t.trace(st.Val, ctx, proj[1:]))
-						}
+				if x.X == v {
+					if len(proj) == 0 {
+						visitAddr(x, nil) // the whole struct is wanted: every member
+					} else if sx.FieldOf(x).Name() == proj[0] {
+						visitAddr(x, proj[1:])
 					}
 				}
 			case *ssa.MapUpdate:
